@@ -4,10 +4,11 @@ CONSTANTS
  Q = 11
  Gg = 2
  Vars = {"two", "n", "opt"}
- Ns = {2, 3}
- MsgVecs <- MV23
+ Ns = {2, 3, 4}
+ MsgVecs <- MV23b
  CCoins <- C4c
  SCoins <- C1a
  Tamper = TRUE
+ PowM <- TabPowM
 INVARIANTS Correct HonestAbort Refusal OneOnly Curious CuriousPairs
 CHECK_DEADLOCK FALSE
